@@ -44,7 +44,35 @@ func VerifC16Concat() {
 	if r, ok := c16EvalStr("s | prepend: t", b, "prepend"); ok {
 		nd.Assert(r == t+s, "prepend-concatenates")
 	}
-	switch nd.Choice(4) {
+	switch nd.Choice(6) {
+	case 4:
+		// a float receiver becomes the text it prints as: whole numbers without fraction or exponent
+		k := nd.Choice(8)
+		fv := []any{1000001.0, 123456789.0, 2.5, -0.5, 1e6, float32(3), 21e13, float32(1e7)}[k]
+		want := []string{"1000001", "123456789", "2.5", "-0.5", "1000000", "3", "210000000000000", "10000000"}[k]
+		if r, ok := c16EvalStr("n | append: t", map[string]any{"n": fv, "t": t}, "append-float"); ok {
+			nd.Assert(r == want+t, "float-receiver-printed")
+		}
+		if r, ok := c16EvalStr("t | prepend: n", map[string]any{"n": fv, "t": t}, "prepend-float-arg"); ok {
+			nd.Assert(r == want+t, "float-argument-printed")
+		}
+		if r, ok := c16EvalStr("n | upcase", map[string]any{"n": fv}, "upcase-float"); ok {
+			nd.Assert(r == want, "float-receiver-upcase")
+		}
+	case 5:
+		// nil is the empty string in every string position, optional arguments included
+		if r, ok := c16EvalStr("s | truncate: 2, nil", map[string]any{"s": "abc"}, "truncate-nil-ellipsis"); ok {
+			nd.Assert(r == "ab", "nil-ellipsis-empty")
+		}
+		if r, ok := c16EvalStr("s | truncatewords: 1, u", map[string]any{"s": "abc def"}, "truncatewords-nil-ellipsis"); ok {
+			nd.Assert(r == "abc", "nil-words-ellipsis-empty")
+		}
+		if r, ok := c16EvalStr("a | join: u", map[string]any{"a": []any{"a", "b"}}, "join-nil-separator"); ok {
+			nd.Assert(r == "ab", "nil-separator-empty")
+		}
+		if r, ok := c16EvalStr("s | replace: 'b', nil", map[string]any{"s": "abc"}, "replace-nil"); ok {
+			nd.Assert(r == "ac", "nil-replacement-empty")
+		}
 	case 0:
 		n := nd.IntIn(-9, 99)
 		var nv any = n
